@@ -162,6 +162,17 @@ def build():
         J.append(Job("E4/static-facts/" + tagp, "E4", "", "", {"C17": "*", "C16": ["S/acyclic"]}, defs=defs, timeout=120, mem_gb=2,
                      note="call graph / symbol table of the library goto binary built without any harness"))
 
+    HW2 = "contracts/h_writer2.c"
+    J.append(Job("E1/binson_write_name", "E1", HW2, "h_binson_write_name", WP, enforce="binson_write_string",
+                 replace=["vc_strlen", "binson_write_string_with_len"], defs=["VC_HARNESS_OBJECTS", "VC_STUB_STRLEN"],
+                 cbmc_args=["--slice-formula"], timeout=600, mem_gb=8,
+                 note="the source defines binson_write_name, which the header renames to binson_write_string (the symbol under contract)"))
+    e1("binson_parser_to_writer", {"C11": "*", "C04": "*", "C09": "*", "C18": "*"}, harness=HW2,
+       replace=["binson_parser_get_raw", "binson_write_raw"], timeout=900)
+    e1("binson_writer_verify", {"C05": "*", "C17": "*", "C18": "*"}, harness=HW2,
+       replace=["binson_parser_init_object", "binson_parser_verify"], timeout=900,
+       note="precondition counter <= capacity: after an overflow the function hands the parser a length beyond the buffer (observation recorded in DESIGN.md 10.10)")
+
     # ---- E2: _advance_parsing, loop closed by the in-source loop contract, max_depth enumerated
     ADV_PROPS = {"C01": "*", "C06": "*", "C07": "*", "C08": "*", "C09": "*", "C12": "*", "C16": "*", "C18": "*", "C02": "*"}
     NPART = 8
